@@ -1426,6 +1426,9 @@ class Engine:
         if isinstance(v.ty, OptTy) and isinstance(v.ty.inner, SeqTy):
             self.check(st, z3.Not(self.pre.opt_is_none(v.ty, v.t)), "TypeError", "iteration over None")
             return V(self.pre.opt_val(v.ty, v.t), v.ty.inner)
+        if isinstance(v.ty, OptTy) and isinstance(v.ty.inner, MapTy):
+            self.check(st, z3.Not(self.pre.opt_is_none(v.ty, v.t)), "TypeError", "iteration over None")
+            return self.as_seq(V(self.pre.opt_val(v.ty, v.t), v.ty.inner), st)
         raise Unsupported(f"iteration over {v.ty}")
 
     def enumerate_set(self, v: V, st: State) -> V:
@@ -2335,9 +2338,28 @@ class Engine:
             raise ContractError(f"{c.name}: no signature bound (function missing in source?)")
         params, rty = self.func_sigs[c.name]
         args = self.bind_args(c, n, st, self_obj)
-        return self.apply_contract(c, args, rty, st, n)
+        # a collection parameter the callee mutates in place (`mutable_params`): the caller sees the final value.  Value semantics of
+        # collections make that a write-back to the caller's *variable*; any other argument expression cannot be written back
+        outs: dict[str, str] = {}
+        mp = [p for p in (getattr(c, "mutable_params", []) or []) if not (p == "self" and self_obj is not None and isinstance(self_obj.ty, RecTy))]
+        if mp and not self.mode_spec:
+            plist = [pn for pn, _ in params]
+            if self_obj is not None:
+                plist = plist[1:]
+            where: dict[str, ast.expr] = dict(zip(plist, n.args))
+            for kw in n.keywords:
+                where[kw.arg] = kw.value  # type: ignore[index]
+            for p in mp:
+                a = where.get(p)
+                if a is None:
+                    continue  # defaulted: the callee's own fresh object, invisible to the caller
+                if not isinstance(a, ast.Name):
+                    raise Unsupported(f"argument for the in-place mutated parameter `{p}` of {c.name} is not a variable", n)
+                outs[p] = a.id
+        return self.apply_contract(c, args, rty, st, n, outs)
 
-    def apply_contract(self, c: Contract, args: dict[str, V], rty: Ty, st: State, n: Optional[ast.AST] = None) -> V:
+    def apply_contract(self, c: Contract, args: dict[str, V], rty: Ty, st: State, n: Optional[ast.AST] = None,
+                       outs: Optional[dict[str, str]] = None) -> V:
         if c.trusted:
             self.trusted_used.add(f"contract of {c.name} (assumed)")
         cst = State()
@@ -2386,11 +2408,16 @@ class Engine:
         post = State()
         post.env = dict(args)
         post.env["result"] = res
+        for p, var in (outs or {}).items():
+            # the final value of an in-place mutated parameter: unknown, constrained by the callee's postcondition, written back
+            post.env[p] = self.fresh(f"out.{c.name}.{p}", args[p].ty)
         post.heap = dict(st.heap)
         post.old = pre
         post.pc = st.pc
         for lab, txt in c.ensures.items():
             self.assume(st, self.clause(txt, post))
+        for p, var in (outs or {}).items():
+            st.env[var] = self.coerce(post.env[p], st.env[var].ty) if var in st.env else post.env[p]
         return res
 
     def pure_app(self, c: Contract, args: dict[str, V], rty: Ty) -> V:
